@@ -168,8 +168,8 @@ VERUS = [dict(
     ],
 )]
 
-KANI = [dict(package="datafusion-physical-plan", module="physical_plan/repartition.rs", timeout=2400, harnesses=[
-    dict(name="c11_partition_indices_bounded", complete=False, bound="divisors 1..=6, two hashes < 2^12",
+KANI = [dict(package="datafusion-physical-plan", module="physical_plan/repartition.rs", timeout=900, harnesses=[
+    dict(name="c11_partition_indices_bounded", complete=False, thorough_only=True, bound="concrete divisors 1,3,4,5,6,7; one hash within 2^16 of either end of the u64 range",
          what="Kani twin of the Verus unit on the unextracted new + partition_indices: each row exactly once, in bucket hash mod n (cross-check of rewrites R1/R2)"),
 ])]
 TRUSTED = ["Verus 0.2026.09.13 + Z3 4.12.5 (bundled)", "assume_specification u64::is_power_of_two <=> d>0 && d&(d-1)==0",
